@@ -12,6 +12,7 @@ import (
 	"path/filepath"
 	"sort"
 	"strings"
+	"sync"
 	"time"
 
 	"verif/internal/core"
@@ -42,8 +43,13 @@ func project(id string, unit scen.Unit) *scen.Project {
 	globs := scen.Render(p, []scen.Unit{unit})
 	p.Files["auth/auth.go"] = scen.AuthPackage
 	p.Config = scen.BaseConfig("gin", "3.0.0", globs)
+	b, _ := json.MarshalIndent(scen.BaseConfig("gin", "3.1.0", globs), "", "  ")
+	p.Files["gleece31.config.json"] = string(b)
 	return p
 }
+
+// cmd31 generates the spec of the same project as OpenAPI 3.1.0 (a separate generator and converter)
+var cmd31 = []string{"generate", "spec", "-c", "./gleece31.config.json"}
 
 // ---- (a) type shapes x sites ---------------------------------------------------------------------------------
 
@@ -134,6 +140,7 @@ func shapeInputs(tier string) []input {
 			} else if site == "return" {
 				cmds = [][]string{allCmds[0], allCmds[3], allCmds[4]}
 			}
+			cmds = append(append([][]string{}, cmds...), cmd31)
 			out = append(out, input{ID: id, Feat: map[string]string{"family": "type-shape", "shape": sh.Name, "site": site}, P: project(id, u), Cmds: cmds})
 		}
 	}
@@ -180,7 +187,7 @@ func annotationInputs(tier string) []input {
 			ctl.Methods = []scen.Method{m}
 			decl := structDoc + "type W" + id + " struct {\n" + fieldDoc + "\tF E" + id + " `json:\"f\"`\n}\n\ntype E" + id + " string\n\nconst (\n" + enumDoc + "\tE" + id + "A E" + id + " = \"a\"\n)\n"
 			u := scen.Unit{Controllers: []scen.Controller{ctl}, Decls: map[string]string{id: decl}}
-			out = append(out, input{ID: id, Feat: map[string]string{"family": "annotation", "line": l, "position": pos}, P: project(id, u), Cmds: mainCmd})
+			out = append(out, input{ID: id, Feat: map[string]string{"family": "annotation", "line": l, "position": pos}, P: project(id, u), Cmds: [][]string{mainCmd[0], cmd31}})
 		}
 	}
 	return out
@@ -188,12 +195,12 @@ func annotationInputs(tier string) []input {
 
 // ---- (c) validator strings ---------------------------------------------------------------------------------------
 
-func validatorInputs(tier string) []input {
+func validatorInputs(tier string) []pairCase {
 	rules := []string{"gt", "gte", "lt", "lte", "min", "max", "len", "minItems", "maxItems", "uniqueItems", "pattern", "enum", "oneof", "email", "required", "eq", "dive", "unknownrule"}
 	args := []struct{ name, text string }{{"no-value", ""}, {"empty", "="}, {"non-numeric", "=abc"}, {"negative", "=-5"}, {"huge", "=99999999999999999999999"}, {"float", "=1.5"}, {"spaces", "= 3"}}
 	kinds := []struct{ name, goType string }{{"string", "string"}, {"int", "int"}, {"float64", "float64"}, {"bool", "bool"}, {"[]string", "[]string"}, {"struct", "VS§"}}
 	sitesV := []string{"field", "query", "body"}
-	var out []input
+	var out []pairCase
 	n := 0
 	for _, r := range rules {
 		for _, a := range args {
@@ -230,12 +237,178 @@ func validatorInputs(tier string) []input {
 					}
 					ctl := scen.Controller{Name: "C" + id, Pkg: id, Prefix: scen.S("/" + id), Tag: scen.S("T" + id), Methods: []scen.Method{m}}
 					u := scen.Unit{Controllers: []scen.Controller{ctl}, Decls: map[string]string{id: decl}}
-					out = append(out, input{ID: id, Feat: map[string]string{"family": "validator", "rule": r, "arg": a.name, "kind": k.name, "site": site, "validate": v}, P: project(id, u), Cmds: mainCmd})
+					out = append(out, pairCase{ID: id, Feat: map[string]string{"family": "validator", "rule": r, "arg": a.name, "kind": k.name, "site": site, "validate": v}, Unit: u})
 				}
 			}
 		}
 	}
 	return out
+}
+
+// ---- (c2) validator strings made of two rules ---------------------------------------------------------------------
+//
+// Converters keep state between the rules of one tag (a minimum seen earlier, a type decided earlier), so every
+// ordered pair of (rule, argument form) atoms is run too. The scenarios are packed; a pack whose command does not
+// exit 0 is bisected down to the offending scenario, so that every scenario is exercised in a run that got past
+// the others.
+
+type pairCase struct {
+	ID   string
+	Feat map[string]string
+	Unit scen.Unit
+}
+
+func validatorPairCases(tier string) []pairCase {
+	var atoms []string
+	for _, r := range []string{"min", "max", "len", "gt", "gte", "lt", "lte", "eq", "oneof"} {
+		for _, a := range []string{"=3", "=abc", "=-5", ""} {
+			atoms = append(atoms, r+a)
+		}
+	}
+	atoms = append(atoms, "required", "email", "omitempty", "dive")
+	kinds := []struct{ name, goType string }{{"string", "string"}, {"int", "int"}, {"[]string", "[]string"}}
+	if tier == "thorough" {
+		kinds = append(kinds, struct{ name, goType string }{"float64", "float64"}, struct{ name, goType string }{"*string", "*string"})
+	}
+	var out []pairCase
+	n := 0
+	for _, k := range kinds {
+		for _, a := range atoms {
+			for _, b := range atoms {
+				if a == b {
+					continue
+				}
+				id := fmt.Sprintf("y%04d", n)
+				n++
+				v := a + "," + b
+				decl := "type W" + id + " struct {\n\tF " + k.goType + " `json:\"f\" validate:\"" + v + "\"`\n}\n"
+				m := scen.Method{Name: "Op" + id, Verb: "POST", Route: scen.S("/op"), Ret: "W" + id}
+				if k.name != "[]string" || true {
+					m.Params = []scen.Param{{Name: "p", Type: k.goType, In: "Query", Validate: v}}
+				}
+				ctl := scen.Controller{Name: "C" + id, Pkg: id, Prefix: scen.S("/" + id), Tag: scen.S("T" + id), Methods: []scen.Method{m}}
+				out = append(out, pairCase{ID: id, Feat: map[string]string{"family": "validator-pair", "first": a, "second": b, "kind": k.name, "validate": v},
+					Unit: scen.Unit{Controllers: []scen.Controller{ctl}, Decls: map[string]string{id: decl}}})
+			}
+		}
+	}
+	return out
+}
+
+func replayPairID(replay string) string {
+	if replay == "" {
+		return ""
+	}
+	_, v := core.LoadReplay(replay)
+	id, _ := v.Case.(map[string]any)["id"].(string)
+	return id
+}
+
+func validatorPairs(run *core.Run, scratch, tier string, deadline time.Time, only string) {
+	cases := append(validatorInputs(tier), validatorPairCases(tier)...)
+	if only != "" {
+		var sel []pairCase
+		for _, c := range cases {
+			if c.ID == only {
+				sel = append(sel, c)
+			}
+		}
+		cases = sel
+	}
+	type group struct {
+		cs  []pairCase
+		ver string
+	}
+	var mu sync.Mutex
+	runs, bisections, skipped := 0, 0, 0
+	seq := 0
+	var exec func(g group)
+	exec = func(g group) {
+		if time.Now().After(deadline) {
+			mu.Lock()
+			skipped += len(g.cs)
+			mu.Unlock()
+			return
+		}
+		p := scen.NewProject()
+		var units []scen.Unit
+		for _, c := range g.cs {
+			units = append(units, c.Unit)
+		}
+		globs := scen.Render(p, units)
+		p.Files["auth/auth.go"] = scen.AuthPackage
+		p.Config = scen.BaseConfig("gin", g.ver, globs)
+		mu.Lock()
+		seq++
+		dir := filepath.Join(scratch, fmt.Sprintf("pair%05d", seq))
+		runs++
+		mu.Unlock()
+		if err := p.Write(dir); err != nil {
+			core.Harness("cannot write project: %v", err)
+		}
+		horizon := 90 + len(g.cs)
+		r := scen.RunCLI(dir, mainCmd[0], horizon)
+		if r.TimedOut {
+			if r2 := scen.RunCLI(dir, mainCmd[0], horizon*2); !r2.TimedOut {
+				r = r2
+			}
+		}
+		os.RemoveAll(dir)
+		crashed := r.TimedOut || strings.Contains(r.Output, "panic:") || strings.Contains(r.Output, "goroutine 1 [") || strings.Contains(r.Output, "runtime error:") || r.Exit == 2
+		ok := !crashed && r.Exit == 0 && r.Files["dist/openapi.json"] != "" && r.Files["dist/routes/gleece.routes.go"] != ""
+		if !ok && len(g.cs) > 1 {
+			mu.Lock()
+			bisections++
+			mu.Unlock()
+			mid := len(g.cs) / 2
+			exec(group{g.cs[:mid], g.ver})
+			exec(group{g.cs[mid:], g.ver})
+			return
+		}
+		mu.Lock()
+		defer mu.Unlock()
+		for _, c := range g.cs {
+			run.AddStates(1)
+			run.AddValidated(1)
+			feat := map[string]string{"command": "generate spec-and-routes", "family": c.Feat["family"], "openapi": g.ver}
+			cs := map[string]any{"id": c.ID, "features": c.Feat, "openapi": g.ver, "unit": c.Unit}
+			class := "exit0"
+			switch {
+			case ok:
+			case r.TimedOut:
+				class = "timeout"
+				run.Report(core.Violation{Oracle: "terminates-within-horizon", Features: feat, What: fmt.Sprintf("`gleece generate spec-and-routes` (openapi %s) did not terminate within %d s for validate:%q on %s", g.ver, horizon, c.Feat["validate"], c.Feat["kind"]), Case: cs})
+			case crashed:
+				class = "panic"
+				feat["panic"] = panicSite(r.Output)
+				run.Report(core.Violation{Oracle: "never-panics", Features: feat, What: fmt.Sprintf("`gleece generate spec-and-routes` (openapi %s) crashed for validate:%q on %s: %s", g.ver, c.Feat["validate"], c.Feat["kind"], panicLine(r.Output)), Case: cs, Observed: tailOf(r.Output, 30)})
+			case r.Exit == 0:
+				class = "exit0-without-artifacts"
+				run.Report(core.Violation{Oracle: "exit-zero-means-artifacts-written", Features: feat, What: fmt.Sprintf("exit 0 without both artifacts for validate:%q on %s: %s", c.Feat["validate"], c.Feat["kind"], tailOf(r.Output, 3)), Case: cs})
+			default:
+				class = "exit-nonzero"
+				if strings.TrimSpace(r.Output) == "" {
+					class = "silent-failure"
+					run.Report(core.Violation{Oracle: "failure-carries-a-message", Features: feat, What: fmt.Sprintf("exit %d without any message for validate:%q on %s", r.Exit, c.Feat["validate"], c.Feat["kind"]), Case: cs})
+				}
+			}
+			run.Outcome(c.Feat["family"]+"/"+g.ver+": "+class, 1)
+		}
+		run.AddTransitions(1)
+	}
+	var groups []group
+	for _, ver := range []string{"3.0.0", "3.1.0"} {
+		for i := 0; i < len(cases); i += 120 {
+			groups = append(groups, group{cases[i:min(i+120, len(cases))], ver})
+		}
+	}
+	scen.Pool(0, len(groups), func(i int) { exec(groups[i]) })
+	if skipped > 0 {
+		run.Cap(fmt.Sprintf("deadline reached: %d validator-pair scenarios not executed", skipped))
+	}
+	run.Set("validator_pair_scenarios", len(cases))
+	run.Set("validator_pair_cli_runs", runs)
+	run.Set("validator_pair_bisections", bisections)
 }
 
 // ---- (d) configuration documents -------------------------------------------------------------------------------
@@ -334,7 +507,7 @@ func Main(tier, replay string) {
 	run.MaxViol = 60
 	scratch := scen.MkScratch("c14")
 	defer os.RemoveAll(scratch)
-	inputs := append(append(append(shapeInputs(tier), annotationInputs(tier)...), validatorInputs(tier)...), configInputs(tier)...)
+	inputs := append(append(shapeInputs(tier), annotationInputs(tier)...), configInputs(tier)...)
 	if replay != "" {
 		_, v := core.LoadReplay(replay)
 		id, _ := v.Case.(map[string]any)["id"].(string)
@@ -345,7 +518,7 @@ func Main(tier, replay string) {
 				sel = append(sel, in)
 			}
 		}
-		if len(sel) == 0 {
+		if len(sel) == 0 && !strings.HasPrefix(id, "y") && !strings.HasPrefix(id, "z") {
 			core.Harness("replay: input %q not in the enumeration", id)
 		}
 		inputs = sel
@@ -458,6 +631,9 @@ func Main(tier, replay string) {
 	if skipped > 0 {
 		run.Cap(fmt.Sprintf("deadline reached: %d of %d CLI runs not executed", skipped, len(jobs)))
 	}
+	if id := replayPairID(replay); replay == "" || strings.HasPrefix(id, "y") || strings.HasPrefix(id, "z") {
+		validatorPairs(run, scratch, tier, deadline, replayPairID(replay))
+	}
 	sort.Ints(walls)
 	if len(walls) > 0 {
 		run.Set("wall_ms_median", walls[len(walls)/2])
@@ -465,9 +641,11 @@ func Main(tier, replay string) {
 	}
 	run.Set("inputs", len(inputs))
 	run.Set("cli_runs", len(jobs)-skipped)
-	run.Sample(map[string]any{"id": inputs[0].ID, "features": inputs[0].Feat})
-	run.Sample(map[string]any{"id": inputs[len(inputs)-1].ID, "features": inputs[len(inputs)-1].Feat})
-	run.Bound = fmt.Sprintf("%d inputs: %d type shapes x %d usage sites; malformed annotation lines x positions; 18 validator rules x 7 argument forms x kinds x sites; configuration mutations (truncations, documents of the wrong JSON kind, every section/field set to each JSON kind or deleted, hostile paths/templates); x commands {spec-and-routes, spec, routes, dump graph, bare root} where applicable", len(inputs), len(shapes()), len(sites))
+	if len(inputs) > 0 {
+		run.Sample(map[string]any{"id": inputs[0].ID, "features": inputs[0].Feat})
+		run.Sample(map[string]any{"id": inputs[len(inputs)-1].ID, "features": inputs[len(inputs)-1].Feat})
+	}
+	run.Bound = fmt.Sprintf("%d inputs: %d type shapes x %d usage sites; malformed annotation lines x positions; 18 validator rules x 7 argument forms x kinds x sites and every ordered pair of 40 (rule, argument) atoms on string/int/[]string fields and query parameters under both OpenAPI versions (packed, bisected on any non-zero exit); configuration mutations (truncations, documents of the wrong JSON kind, every section/field set to each JSON kind or deleted, hostile paths/templates); x commands {spec-and-routes, spec, routes, dump graph, bare root, spec as 3.1.0} where applicable", len(inputs), len(shapes()), len(sites))
 	run.Rule = "state = one (input project/config, command); transition = one run of the real CLI binary in a fresh process; validated = runs whose exit status, output (panic traces), wall time and artifacts were judged"
 	run.Assumptions = []string{"horizon 90 s (re-run with 180 s before a timeout counts); the median run takes well under 2 s", "a [FATAL] log line alone is not a failure"}
 	os.RemoveAll(scratch)
